@@ -131,10 +131,37 @@ fn bracket<'a>(p: &Pattern, items: &[Option<&'a str>], splits: &mut std::slice::
     combine(p, l, r)
 }
 
+/// Which candidates match: for a brace pattern the union of its expansions,
+/// each compiled on its own (so that the alternation matcher is not its own
+/// judge here); otherwise the pattern itself (C02 / C05 judge that).
+struct Matcher {
+    whole: Pattern,
+    expansions: Option<Vec<Pattern>>,
+}
+
+impl Matcher {
+    fn new(pt: &str) -> Result<Matcher, crate::fw::Fail> {
+        let whole = Pattern::new(pt).map_err(|e| format!("Pattern::new({pt:?}) failed: {e}"))?;
+        let expansions = if pt.contains('{') && opat::braces_nested(pt) && !pt.contains("{}") && opat::count_expansions(pt, 256) <= 256 {
+            Some(opat::expand(pt).iter().filter_map(|e| Pattern::new(e).ok()).collect())
+        } else {
+            None
+        };
+        Ok(Matcher { whole, expansions })
+    }
+    fn matches(&self, name: &str) -> bool {
+        match &self.expansions {
+            Some(es) => es.iter().any(|e| e.matches(name)),
+            None => self.whole.matches(name),
+        }
+    }
+}
+
 fn check_list(ev: &mut Ev, pt: &str, names: &[String], splits: &[Vec<usize>]) -> CaseResult {
     let p = Pattern::new(pt).map_err(|e| format!("Pattern::new({pt:?}) failed: {e}"))?;
+    let judge = Matcher::new(pt)?;
     // expected winner
-    let matching: Vec<&String> = names.iter().filter(|n| p.matches(n)).collect();
+    let matching: Vec<&String> = names.iter().filter(|n| judge.matches(n)).collect();
     let mut best: Option<&String> = None;
     let mut ties = 0;
     for m in &matching {
@@ -166,7 +193,7 @@ fn check_list(ev: &mut Ev, pt: &str, names: &[String], splits: &[Vec<usize>]) ->
         for y in names {
             let got = p.best_match(x, y);
             ev.eval();
-            let (mx, my) = (p.matches(x), p.matches(y));
+            let (mx, my) = (judge.matches(x), judge.matches(y));
             let exp: Option<&str> = match (mx, my) {
                 (false, false) => None,
                 (true, false) => Some(x),
